@@ -5,7 +5,7 @@ Trace == ndJsonDeserialize("trace.ndjson")
 Ev == Trace[l]
 A(i) == Ev.a[i]
 Step(Act) == /\ l' = l + 1 /\ Act /\ last'.r = Ev.r /\ ("o" \in DOMAIN Ev => Reads' = Ev.o)
-TReset == Ev.ev = "Reset" /\ l' = l + 1 /\ mem' = {} /\ fill' = [h \in His |-> FALSE] /\ last' = R("Init", <<>>, <<>>)
+TReset == Ev.ev = "Reset" /\ l' = l + 1 /\ mem' = {} /\ fill' = [h \in His |-> FALSE] /\ fill2' = [h \in His |-> FALSE] /\ last' = R("Init", <<>>, <<>>)
 TDrain == Ev.ev = "Drain" /\ l' = l + 1 /\ Ev.d = Enum /\ UNCHANGED vars
 TStep == \/ TReset
          \/ TDrain
@@ -14,6 +14,8 @@ TStep == \/ TReset
          \/ Ev.ev = "Contains" /\ Step(Contains(A(1), A(2)))
          \/ Ev.ev = "Prefill" /\ Step(Prefill(A(1)))
          \/ Ev.ev = "Unfill" /\ Step(Unfill(A(1)))
+         \/ Ev.ev = "Prefill2" /\ Step(Prefill2(A(1)))
+         \/ Ev.ev = "Unfill2" /\ Step(Unfill2(A(1)))
 TNext == l <= Len(Trace) /\ TStep
 TInit == l = 1 /\ Init
 TSpec == TInit /\ [][TNext]_<<vars, l>>
